@@ -2013,6 +2013,9 @@ class Run:
         self.inconclusive = []
         self.errors = []
         self.samples = []
+        self.path_models = []
+        self.model_budget = 12
+        self.model_stride = 97
         self.wall_s = 0.0
 
 
@@ -2061,6 +2064,17 @@ def explore(harness, **kw):
         if len(run.samples) < 3:
             run.samples.append({"decisions": [bool(t) for _, t in ctx.trace][:24],
                                 "pc": [str(c)[:120] for c, _ in ctx.trace][:6]})
+        # a model of this (passing) path, to be re-executed concretely against the real code
+        np_ = run.stats["paths"]
+        if ctx.requires_reached and len(run.path_models) < run.model_budget and \
+                (np_ <= 4 or np_ % run.model_stride == 0):
+            try:
+                if ctx.solver.check() == z3.sat:
+                    m = ctx.solver.model()
+                    run.path_models.append({n: _pyval(m.eval(v, model_completion=True))
+                                            for n, v in ctx.inputs.items()})
+            except Exception:
+                pass
         if run.stop_on_first and run.counterexamples:
             break
         if len(run.errors) > 5:
